@@ -1,12 +1,14 @@
 (* topic driver: integer / decimal numeric and bitwise scalar functions (extract/numfn_model.ml).
    Parsing and printing only; every result is computed by extracted code.
    One request per line (mode argument `numfn`), one answer line per request (all8: 65536 lines).
-     gcd|lcm <d|r> <w> <a> <b>                      -> <impl> <spec>
-     factorial <n>                                   -> <impl> <spec>        (ok:null = SQL NULL)
-     bitand|bitor|xor|shl|shr <s|u> <w> <a> <b>      -> <impl> <spec>
+   <st> = n (the variant with native operators / NULL / zero fill) | c (the repaired variant), see model/NumFn.v
+     gcd|lcm <st> <d|r> <w> <a> <b>                 -> <impl> <spec>
+     factorial <st> <n>                              -> <impl> <spec>        (ok:null = SQL NULL)
+     bitand|bitor|xor|shl <s|u> <w> <a> <b>          -> <impl> <spec>
+     shr <st> <s|u> <w> <a> <b>                      -> <impl> <spec>
      bitnot <s|u> <w> <a>                            -> <impl> <spec>
-     all8 <fn> <d|r> <s|u>                           -> <a> <b> <impl> <spec>   (x 65536; fn binary)
-     round <d|r> <64|128> <p> <s> <n> <v>            -> <impl> <spec>        (ok:<scale>:<unscaled>)
+     all8 <fn> <st> <d|r> <s|u>                      -> <a> <b> <impl> <spec>   (x 65536; fn binary)
+     round <st> <d|r> <64|128> <p> <s> <n> <v>       -> <impl> <spec>        (ok:<scale>:<unscaled>)
      intfn <abs|sign|ceil|floor|trunc|round> <a>     -> <impl> <spec> <same 0/1>
      decfn <op> <v> <s>                              -> <impl> <spec> <same 0/1>
      cmp <a> <b>                                     -> six 0/1 characters: a<b a<=b a=b a<>b a>=b a>b (definition only)
@@ -19,6 +21,7 @@ let oopt = function None -> "null" | Some v -> sz v
 let out_opt = function Ok v -> "ok:" ^ oopt v | Err -> "err" | Panic -> "panic"
 let outf_opt = function None -> "fuel" | Some o -> out_opt o
 let out_pair = function Ok (s, v) -> "ok:" ^ sz s ^ ":" ^ sz v | Err -> "err" | Panic -> "panic"
+let p_style = function "n" -> Native | "c" -> Checked | s -> failwith ("style " ^ s)
 let p_mode = function "d" -> Debug | "r" -> Release | s -> failwith ("mode " ^ s)
 let p_sgn = function "s" -> Signed | "u" -> Unsigned | s -> failwith ("sgn " ^ s)
 let p_kind = function "64" -> D64 | "128" -> D128 | s -> failwith ("kind " ^ s)
@@ -28,15 +31,15 @@ let b01 b = if b then "1" else "0"
 let fres = function FInt (nz, n) -> if nz then "nz" else "int:" ^ sz n | FBits b -> "bits:" ^ sz b
 let fres_opt = function None -> "none" | Some r -> fres r
 
-let bin_line fn m sg w a b =
+let bin_line fn st m sg w a b =
   match fn with
-  | "gcd" -> Printf.sprintf "%s %s" (outf (impl_gcd m w a b)) (out (spec_gcd w a b))
-  | "lcm" -> Printf.sprintf "%s %s" (outf (impl_lcm m w a b)) (out (spec_lcm w a b))
+  | "gcd" -> Printf.sprintf "%s %s" (outf (impl_gcd_src st m w a b)) (out (spec_gcd w a b))
+  | "lcm" -> Printf.sprintf "%s %s" (outf (impl_lcm_src st m w a b)) (out (spec_lcm w a b))
   | "bitand" -> Printf.sprintf "%s %s" (out (impl_bitand sg w a b)) (out (spec_bitand sg w a b))
   | "bitor" -> Printf.sprintf "%s %s" (out (impl_bitor sg w a b)) (out (spec_bitor sg w a b))
   | "xor" -> Printf.sprintf "%s %s" (out (impl_xor sg w a b)) (out (spec_xor sg w a b))
   | "shl" -> Printf.sprintf "%s %s" (out (impl_shl sg w a b)) (out (spec_shl_exec sg w a b))
-  | "shr" -> Printf.sprintf "%s %s" (out (impl_shr sg w a b)) (out (spec_shr_exec sg w a b))
+  | "shr" -> Printf.sprintf "%s %s" (out (impl_shr_src st sg w a b)) (out (spec_shr_exec sg w a b))
   | s -> failwith ("fn " ^ s)
 
 let numfn () =
@@ -44,24 +47,26 @@ let numfn () =
      while true do
        let line = input_line stdin in
        match split_ws line with
-       | [("gcd" | "lcm") as fn; m; w; a; b] -> print_endline (bin_line fn (p_mode m) Signed (zs w) (zs a) (zs b))
-       | [("bitand" | "bitor" | "xor" | "shl" | "shr") as fn; sg; w; a; b] ->
-         print_endline (bin_line fn Debug (p_sgn sg) (zs w) (zs a) (zs b))
+       | [("gcd" | "lcm") as fn; st; m; w; a; b] -> print_endline (bin_line fn (p_style st) (p_mode m) Signed (zs w) (zs a) (zs b))
+       | [("bitand" | "bitor" | "xor" | "shl") as fn; sg; w; a; b] ->
+         print_endline (bin_line fn Native Debug (p_sgn sg) (zs w) (zs a) (zs b))
+       | ["shr"; st; sg; w; a; b] -> print_endline (bin_line "shr" (p_style st) Debug (p_sgn sg) (zs w) (zs a) (zs b))
        | ["bitnot"; sg; w; a] ->
          Printf.printf "%s %s\n" (out (impl_bitnot (p_sgn sg) (zs w) (zs a))) (out (spec_bitnot (p_sgn sg) (zs w) (zs a)))
-       | ["factorial"; n] -> Printf.printf "%s %s\n" (outf_opt (impl_factorial (zs n))) (out_opt (spec_factorial_exec (zs n)))
-       | ["all8"; fn; m; sg] ->
+       | ["factorial"; st; n] ->
+         Printf.printf "%s %s\n" (outf_opt (impl_factorial_src (p_style st) (zs n))) (out_opt (spec_factorial_exec (zs n)))
+       | ["all8"; fn; st; m; sg] ->
          let lo, hi = if sg = "s" then (-128, 127) else (0, 255) in
          let buf = Buffer.create (1 lsl 21) in
          for a = lo to hi do
            for b = lo to hi do
              Buffer.add_string buf (Printf.sprintf "%d %d %s\n" a b
-               (bin_line fn (p_mode m) (p_sgn sg) (zs "8") (zs (string_of_int a)) (zs (string_of_int b))))
+               (bin_line fn (p_style st) (p_mode m) (p_sgn sg) (zs "8") (zs (string_of_int a)) (zs (string_of_int b))))
            done
          done;
          print_string (Buffer.contents buf)
-       | ["round"; m; k; p; s; n; v] ->
-         Printf.printf "%s %s\n" (out_pair (impl_round (p_mode m) (p_kind k) (zs p) (zs s) (zs n) (zs v)))
+       | ["round"; st; m; k; p; s; n; v] ->
+         Printf.printf "%s %s\n" (out_pair (impl_round_src (p_style st) (p_mode m) (p_kind k) (zs p) (zs s) (zs n) (zs v)))
            (out_pair (spec_round (zs p) (zs s) (zs n) (zs v)))
        | ["intfn"; op; a] ->
          let i = impl_int_fn (p_fop op) (zs a) and s = spec_int_fn (p_fop op) (zs a) in
